@@ -174,6 +174,25 @@ def scenario(name, root):
             res = transfer(a, b, {HashInfo("md5", o) for o in ids}, shallow=False, verify=name.endswith("verify"))
             if not name.endswith("verify"):
                 assert not res.failed
+        elif name == "store_to_store_index":
+            # a push to a local remote that keeps an existence index (what index/push.py does)
+            from dvc_data.hashfile.db.index import ObjectDBIndex
+
+            a = HashFileDB(fs, os.path.join(root, "srcstore"))
+            b = LocalHashFileDB(fs, os.path.join(root, "odb"), state=state)
+            with open(os.path.join(root, "request.json")) as f:
+                ids = json.load(f)
+            idx = ObjectDBIndex(os.path.join(root, "remote-index"), "dest")
+            try:
+                res = transfer(a, b, {HashInfo("md5", o) for o in ids}, shallow=False, dest_index=idx)
+            finally:
+                idx.close()
+            assert not res.failed
+        elif name == "stage_transfer_legacy":
+            odb = LocalHashFileDB(fs, os.path.join(root, "odb"), state=state, hash_name="md5-dos2unix")
+            staging, meta, obj = build(odb, src, fs, "md5-dos2unix")
+            res = transfer(staging, odb, {obj.hash_info}, shallow=False)
+            assert not res.failed
         elif name == "upload_staging":
             odb = LocalHashFileDB(fs, os.path.join(root, "odb"), state=state)
             staging, meta, obj = build(odb, src, fs, "md5", upload=True)
